@@ -153,7 +153,11 @@ def run_instance(p):
     n = identical = 0
     for pc, (sy, x, y0, y1, summ, exp, err) in ex.explore(fn):
         n += 1
+        if len(res.violations) >= 3:
+            res.notes.append('exploration of this program stopped after 3 replayed violations')
+            break
         problems = []
+        cex_model = None
         if err is not None:
             problems.append(('export_raised', err, None))
         else:
@@ -172,14 +176,30 @@ def run_instance(p):
                 if bad is False:
                     identical += 1
                 else:
-                    r, mm = ex.check(bad)
+                    # cheap search first: evaluate the difference on a few models of the path; the solver is only asked to PROVE equivalence
+                    # (or to find a subtle counterexample) when none of them distinguishes the two networks
+                    r = None
+                    for k_ in range(3):
+                        rk, mk = ex.check(*[v >= Fraction(k_, 2) + Fraction(1, 8) for v in x.elems()[:k_ + 1]])
+                        if rk == 'sat' and z3.is_true(mk.eval(bad, model_completion=True)):
+                            r, mm = 'sat', mk
+                            cex_model = mk
+                            break
+                    if r is None:
+                        r, mm = ex.check(bad, timeout_ms=30000)
                     if r == 'unknown':
                         res.inconclusive.append(f'path {n}: output terms differ syntactically and the equivalence query is unknown')
                     elif r == 'sat':
                         problems.append(('output_differs', 'outputs differ for some input', bad))
+                        cex_model = cex_model or mm
         res.oblige(not problems, 3)
         extra = [pb[2] for pb in problems if pb[2] is not None]
-        if problems or n <= 3 or n % 8 == 0:
+        cexm = cex_model
+        if problems and cexm is not None and any(pb[0] == 'output_differs' for pb in problems):
+            mm = cexm
+            alphas, xv = mpslib.values_of(mm, sy), [st.model_value(mm, v) for v in x.elems()]
+            cex_model = None
+        elif problems or n <= 3 or n % 8 == 0:
             # a model of the path: dyadic coefficients; inputs on a coarse grid first, any model otherwise
             mm = mpslib.grid_model(ex, sy, extra + [v * 2 == z3.ToReal(z3.Int(f'gx!{i}')) for i, v in enumerate(x.elems())], den=8, bound=2)
             if mm is None:
